@@ -79,11 +79,43 @@ func (ctx *context) ModuleInit(impl *py.ModuleImpl) (*py.Module, error) {
 	}
 	defer ctx.popBusy()
 
-	if impl.Code == nil && len(impl.CodeSrc) > 0 {
-		impl.Code, err = py.Compile(string(impl.CodeSrc), impl.Info.FileDesc, py.ExecMode, 0, true)
+	code, err := moduleImplCode(impl)
+	if err != nil {
+		return nil, err
+	}
+
+	module, err := ctx.Store().NewModule(ctx, impl)
+	if err != nil {
+		return nil, err
+	}
+
+	if code != nil {
+		_, err = ctx.RunCode(code, module.Globals, module.Globals, nil)
 		if err != nil {
 			return nil, err
 		}
+	}
+
+	return module, nil
+}
+
+// implCodeMu guards the lazily filled in ModuleImpl.Code - a ModuleImpl
+// is shared by all the contexts in the process which may import it at
+// the same time.
+var implCodeMu sync.Mutex
+
+// moduleImplCode returns the code of the module body, compiling or
+// unmarshalling it the first time it is needed.
+func moduleImplCode(impl *py.ModuleImpl) (*py.Code, error) {
+	implCodeMu.Lock()
+	defer implCodeMu.Unlock()
+
+	if impl.Code == nil && len(impl.CodeSrc) > 0 {
+		code, err := py.Compile(string(impl.CodeSrc), impl.Info.FileDesc, py.ExecMode, 0, true)
+		if err != nil {
+			return nil, err
+		}
+		impl.Code = code
 	}
 
 	if impl.Code == nil && len(impl.CodeBuf) > 0 {
@@ -92,25 +124,14 @@ func (ctx *context) ModuleInit(impl *py.ModuleImpl) (*py.Module, error) {
 		if err != nil {
 			return nil, err
 		}
-		impl.Code, _ = obj.(*py.Code)
-		if impl.Code == nil {
+		code, _ := obj.(*py.Code)
+		if code == nil {
 			return nil, py.ExceptionNewf(py.AssertionError, "Embedded code did not produce a py.Code object")
 		}
+		impl.Code = code
 	}
 
-	module, err := ctx.Store().NewModule(ctx, impl)
-	if err != nil {
-		return nil, err
-	}
-
-	if impl.Code != nil {
-		_, err = ctx.RunCode(impl.Code, module.Globals, module.Globals, nil)
-		if err != nil {
-			return nil, err
-		}
-	}
-
-	return module, nil
+	return impl.Code, nil
 }
 
 // See interface py.Context defined in py/run.go
